@@ -3,6 +3,7 @@
    kind "call": [sig, args, pos: [cls], kw: [cls], same (both accepted and equal statements),
                  missing: [cls], unknown: [cls], mixed: [cls]]
    kind "idle": [name, has (an idle gate was derived), kinds, parent_kinds, uses_qubits, unitary]
+   kind "idle_st": [name, has, has_stretched, kinds, parent_kinds (of the stretched gate), base_kinds, uses_qubits, unitary]
    kind "stretch": [name, kinds, parent_kinds, cargs, factor, exact, k, m (matrix as rows of <<re,im>>)]  *)
 EXTENDS JaqalGateDef, JaqalExec, IOUtils
 Cases == JsonDeserialize(IOEnv.CASES)
@@ -23,6 +24,16 @@ IdleClauses(c) ==
         \cup F("no_qubits", c.uses_qubits)
         \cup F("no_effect", c.unitary))
 
+\* stretched_gates applied to a set that already holds idle gates: the idle gate I_<g> yields both <g><suffix>
+\* and its idle companion I_<g><suffix>, which is the idle gate OF THE STRETCHED gate (same signature, stretch included)
+IdleStClauses(c) ==
+  F("idle_st_exists", ~c.has \/ ~c.has_stretched)
+  \cup (IF ~c.has \/ ~c.has_stretched THEN {} ELSE
+        F("stretched_extra_float", c.parent_kinds # Append(c.base_kinds, "float"))
+        \cup F("same_signature", c.kinds # c.parent_kinds)
+        \cup F("no_qubits", c.uses_qubits)
+        \cup F("no_effect", c.unitary))
+
 MatRows(mt) == [r \in 1..mt.d |-> [cc \in 1..mt.d |-> mt.m[r][cc]]]
 StretchClauses(c) ==
   LET mt == Mat(c.name, c.cargs) IN
@@ -30,7 +41,7 @@ StretchClauses(c) ==
   \cup F("same_action", mt.has /\ (c.cls # "ok" \/ ~c.exact \/ c.k # mt.e \/ c.m # MatRows(mt)))
   \cup F("no_unitary_kept", ~mt.has /\ c.cls # "none")
 
-GClauses(c) == CASE c.kind = "call" -> CallClauses(c) [] c.kind = "idle" -> IdleClauses(c)
+GClauses(c) == CASE c.kind = "call" -> CallClauses(c) [] c.kind = "idle" -> IdleClauses(c) [] c.kind = "idle_st" -> IdleStClauses(c)
                  [] c.kind = "stretch" -> StretchClauses(c) [] OTHER -> {"unknown_kind"}
 
 VARIABLE i
